@@ -82,6 +82,8 @@ func main() {
 		c11(sum)
 	case "C13":
 		c13(sum)
+	case "C14":
+		c14(sum)
 	default:
 		fmt.Fprintln(os.Stderr, "unknown prop", *prop)
 		os.Exit(2)
@@ -258,7 +260,7 @@ func pairs(t lib.IntType, rng *lib.Rng, nrand, coqRand int, f func(a, b *big.Int
 	lat := t.Lattice()
 	for i, a := range lat {
 		for j, b := range lat {
-			f(a, b, *tier == "thorough" || (i*31+j*17)%12 == 0)
+			f(a, b, *tier == "thorough" || (i*31+j*17)%40 == 0)
 		}
 	}
 	for i := 0; i < nrand; i++ {
@@ -597,4 +599,216 @@ func keys(m map[string]bool) []string {
 	}
 	sort.Strings(ks)
 	return ks
+}
+
+var bitOps = []op{
+	{"BOr", "|", func(a, b interpreter.IntegerValue) interpreter.Value { return a.BitwiseOr(nil, b) }},
+	{"BXor", "^", func(a, b interpreter.IntegerValue) interpreter.Value { return a.BitwiseXor(nil, b) }},
+	{"BAnd", "&", func(a, b interpreter.IntegerValue) interpreter.Value { return a.BitwiseAnd(nil, b) }},
+	{"BShl", "<<", func(a, b interpreter.IntegerValue) interpreter.Value { return a.BitwiseLeftShift(nil, b) }},
+	{"BShr", ">>", func(a, b interpreter.IntegerValue) interpreter.Value { return a.BitwiseRightShift(nil, b) }},
+}
+
+var big2_64 = new(big.Int).Lsh(big.NewInt(1), 64)
+
+// signedOf reinterprets u in [0,2^n) as an n-bit two's complement number.
+func signedOf(u *big.Int, n int) *big.Int {
+	if u.Bit(n-1) == 1 {
+		return new(big.Int).Sub(u, new(big.Int).Lsh(big.NewInt(1), uint(n)))
+	}
+	return u
+}
+
+// bitsOracle: the property's specification. second result: alternative allowed outcome ("" if none).
+func bitsOracle(t lib.IntType, name string, a, b *big.Int) (outcome, string) {
+	bounded := t.Bits != 0
+	norm := func(z *big.Int) *big.Int {
+		if !bounded {
+			return z
+		}
+		u := mod2n(z, t.Bits)
+		if t.Kind == "signed" {
+			return signedOf(u, t.Bits)
+		}
+		return u
+	}
+	switch name {
+	case "BOr":
+		return outcome{z: norm(new(big.Int).Or(a, b))}, ""
+	case "BXor":
+		return outcome{z: norm(new(big.Int).Xor(a, b))}, ""
+	case "BAnd":
+		return outcome{z: norm(new(big.Int).And(a, b))}, ""
+	}
+	if b.Sign() < 0 {
+		return outcome{cls: lib.ENegShift}, ""
+	}
+	alt := ""
+	if !bounded && b.Cmp(big2_64) >= 0 {
+		alt = lib.EOverflow
+	}
+	if name == "BShl" {
+		if bounded {
+			if b.Cmp(big.NewInt(int64(t.Bits))) >= 0 {
+				return outcome{z: big.NewInt(0)}, alt
+			}
+			return outcome{z: norm(new(big.Int).Lsh(a, uint(b.Uint64())))}, alt
+		}
+		if alt != "" {
+			return outcome{cls: alt}, alt // exact value not computable; Overflow is the allowed outcome
+		}
+		return outcome{z: new(big.Int).Lsh(a, uint(b.Uint64()))}, alt
+	}
+	// floor(a / 2^b)
+	if b.Cmp(big.NewInt(int64(a.BitLen()+1))) > 0 {
+		if a.Sign() < 0 {
+			return outcome{z: big.NewInt(-1)}, alt
+		}
+		return outcome{z: big.NewInt(0)}, alt
+	}
+	return outcome{z: new(big.Int).Rsh(a, uint(b.Uint64()))}, alt
+}
+
+func c14(sum *lib.Summary) {
+	rng := lib.NewRng(*seed)
+	cw := &lib.CaseWriter{Dir: *dir, Prefix: "cases_C14", Header: "From CV Require Import Num.NumCases.",
+		ElemType: "ikind * bitop * Z * Z * res Z", CheckFn: "check_bits", PerFile: 700}
+	distinct := map[string]bool{}
+	nrand, coqRand, nscript := sizes()
+	sum.Rule = "all 20 integer/word types x {|,^,&,<<,>>}: bitwise ops on all lattice pairs + random pairs (+ all 65536 pairs for the 8-bit types); " +
+		"shifts with amounts 0..width+1, 63,64,65, 2^63-1, 2^63, 2^64-1, 2^64, 2^64+1, the type's maximum, -1, min (where representable) against lattice and " +
+		"random left operands (Int/UInt left shifts only up to 4096 or >= 2^64: larger amounts would allocate the result); each compared with a math/big " +
+		"oracle of the property's specification in Go; cases with amount <= 4096 or >= 2^64 also evaluated by the Coq model bits_model; scripts in both " +
+		"engines. non-trivial = negative operand, or shift that drops/truncates bits or has amount >= width, or error outcome; distinct = distinct (type,op,a,b)"
+	small := big.NewInt(4096)
+	one := func(t lib.IntType, o op, a, b *big.Int, toCoq bool) {
+		if o.Name == "BShl" && t.Bits == 0 && b.Cmp(small) > 0 && b.Cmp(big2_64) < 0 {
+			return // would allocate gigabytes
+		}
+		got := run(t, o, a, b)
+		sum.Evaluations++
+		want, alt := bitsOracle(t, o.Name, a, b)
+		ok := got.eq(want) || (alt != "" && got.cls == alt)
+		nontriv := want.cls != "" || a.Sign() < 0 || ((o.Name == "BShl" || o.Name == "BShr") && b.Sign() > 0 && a.Sign() != 0)
+		if nontriv {
+			key := fmt.Sprintf("%s %s %s %s", t.Name, o.Name, a, b)
+			if !distinct[key] {
+				distinct[key] = true
+				sum.DistinctNontrivial++
+			}
+			if len(sum.Samples) < 8 && (a.BitLen() > 3 || t.Bits == 8) {
+				sum.Sample(map[string]string{"type": t.Name, "expr": fmt.Sprintf("%s %s %s", a, o.Sym, b), "observed": got.String()})
+			}
+		}
+		sum.Count(t.Name + " " + o.Sym)
+		sum.Count("outcome " + got.clsOrOk())
+		if !ok {
+			k := fmt.Sprintf("bits:%s:%s", t.Name, o.Name)
+			sum.Fail(k, fmt.Sprintf("%s: %s %s %s = %s, required %s", t.Name, a, o.Sym, b, got, want),
+				map[string]any{"type": t.Name, "op": o.Sym, "a": a.String(), "b": b.String(), "observed": got.String(), "required": want.String(), "via": "interpreter value method"})
+		}
+		shiftOp := o.Name == "BShl" || o.Name == "BShr"
+		if toCoq && (!shiftOp || b.Cmp(small) <= 0 || b.Cmp(big2_64) >= 0) {
+			cw.Add(fmt.Sprintf("(%s, %s, %s, %s, %s)", t.CoqKind(), o.Name, lib.Z(a), lib.Z(b), lib.ResZ(got.cls, got.z)),
+				map[string]any{"type": t.Name, "op": o.Sym, "a": a.String(), "b": b.String(), "observed": got.String()})
+		}
+	}
+	for _, t := range lib.IntTypes {
+		// shift amounts
+		var amts []*big.Int
+		addAmt := func(z *big.Int) {
+			if t.InRange(z) {
+				amts = append(amts, z)
+			}
+		}
+		w := t.Bits
+		if w == 0 {
+			w = 256
+		}
+		for k := 0; k <= w+1; k++ {
+			addAmt(big.NewInt(int64(k)))
+		}
+		for _, k := range []int64{300, 1000, 4096, -1, -2} {
+			addAmt(big.NewInt(k))
+		}
+		for _, e := range []uint{31, 32, 62, 63, 64, 65, 100, 127} {
+			p := new(big.Int).Lsh(big.NewInt(1), e)
+			for _, d := range []int64{-1, 0, 1} {
+				addAmt(new(big.Int).Add(p, big.NewInt(d)))
+			}
+		}
+		if m := t.Max(); m != nil {
+			addAmt(m)
+		}
+		if m := t.Min(); m != nil {
+			addAmt(m)
+		}
+		lat := t.Lattice()
+		for _, o := range bitOps {
+			if o.Name == "BShl" || o.Name == "BShr" {
+				for i, a := range lat {
+					for j, b := range amts {
+						one(t, o, a, b, *tier == "thorough" || (i*7+j*3)%45 == 0)
+					}
+				}
+				for i := 0; i < nrand; i++ {
+					one(t, o, t.Random(rng), lib.Pick(rng, amts), i < coqRand)
+				}
+			} else {
+				for i, a := range lat {
+					for j, b := range lat {
+						one(t, o, a, b, *tier == "thorough" || (i*31+j*17)%40 == 0)
+					}
+				}
+				for i := 0; i < nrand; i++ {
+					one(t, o, t.Random(rng), t.Random(rng), i < coqRand)
+				}
+			}
+			if t.Bits == 8 {
+				lo, hi := t.Min().Int64(), t.Max().Int64()
+				for a := lo; a <= hi; a++ {
+					for b := lo; b <= hi; b++ {
+						one(t, o, big.NewInt(a), big.NewInt(b), false)
+					}
+				}
+			}
+		}
+	}
+	cw.Close()
+	sum.CaseFiles = cw.Files
+	// scripts: small operands/amounts only
+	h := lib.NewHost()
+	for i := 0; i < nscript; i++ {
+		t := lib.Pick(rng, lib.IntTypes)
+		o := lib.Pick(rng, bitOps)
+		a := lib.Pick(rng, t.Lattice())
+		var b *big.Int
+		if o.Name == "BShl" || o.Name == "BShr" {
+			b = big.NewInt(int64(rng.Intn(t.Bits + 70)))
+			if !t.InRange(b) {
+				continue
+			}
+		} else {
+			b = lib.Pick(rng, t.Lattice())
+		}
+		src := fmt.Sprintf("access(all) fun main(): %s { let a: %s = %s; let b: %s = %s; return a %s b }", t.Name, t.Name, a, t.Name, b, o.Sym)
+		direct := run(t, o, a, b)
+		for _, vm := range []bool{false, true} {
+			out := h.RunScript(src, nil, vm)
+			sum.Evaluations++
+			sum.Count(fmt.Sprintf("script vm=%v", vm))
+			var got outcome
+			if out.Class != "" {
+				got = outcome{cls: out.Class}
+			} else {
+				z, _ := new(big.Int).SetString(out.Value.String(), 10)
+				got = outcome{z: z}
+			}
+			if !got.eq(direct) {
+				sum.Fail(fmt.Sprintf("bits-script:%s:%s:vm=%v", t.Name, o.Name, vm),
+					fmt.Sprintf("script `%s` (vm=%v) gives %s but the value method gives %s (err: %v)", src, vm, got, direct, out.Err),
+					map[string]any{"script": src, "vm": vm, "observed": got.String(), "value_method": direct.String()})
+			}
+		}
+	}
 }
